@@ -794,7 +794,10 @@ int main(int argc, char** argv)
         sigs.insert(r.res.sched_sig ^ r.res.trace_hash);
         bool fault_fired = false;
         for (auto& kv : r.res.counters)
-            if ((kv.first.rfind("fault_", 0) == 0 || kv.first.rfind("window_", 0) == 0 || kv.first.rfind("probe_", 0) == 0 || kv.first == "ucinewgame" || kv.first == "gui_impatient_stop") && kv.second > 0) fault_fired = true;
+            if ((kv.first.rfind("fault_", 0) == 0 || kv.first.rfind("window_", 0) == 0 || kv.first.rfind("probe_", 0) == 0 || kv.first == "ucinewgame" || kv.first == "gui_impatient_stop" ||
+                 (kv.first.size() > 4 && kv.first[0] == 'c' && isdigit((unsigned char)kv.first[1]) && isdigit((unsigned char)kv.first[2]) && kv.first[3] == '_')) &&
+                kv.second > 0)
+                fault_fired = true;
         if (fault_fired && r.res.ctx_switches >= 2) nontrivial_sigs.insert(r.res.sched_sig ^ r.res.trace_hash);
         for (auto& v : r.res.violations)
         {
@@ -951,7 +954,7 @@ int main(int argc, char** argv)
         o << "  \"coverage\": {\n";
         o << "    \"evaluations\": " << finished << ",\n";
         o << "    \"distinct_nontrivial\": " << nontrivial_sigs.size() << ",\n";
-        o << "    \"rule\": \"one evaluation = one simulated world (fresh engine::Uci, scripted GUI session, seeded scheduler, simulated clock); distinct = distinct (context-switch signature, event-trace hash); non-trivial = at least one fault/window/probe counter fired inside the run and at least two context switches happened\",\n";
+        o << "    \"rule\": \"one evaluation = one simulated world (fresh engine::Uci, scripted GUI session, seeded scheduler, simulated clock); distinct = distinct (context-switch signature, event-trace hash); non-trivial = at least one fault, stop-window, rare-condition probe or monitor/oracle comparison counter fired inside the run and at least two context switches happened\",\n";
         o << "    \"distinct_signatures\": " << sigs.size() << ",\n";
         o << "    \"runs_requested\": " << runs << ",\n";
         o << "    \"runs_crashed\": " << crashed << ",\n";
